@@ -27,3 +27,38 @@ func cmdDump(args []string) int {
 	}
 	return 0
 }
+
+func cmdEvalGoto(args []string) int {
+	e, err := LoadEngine([]string{".", "./terminfo", "./views", "./terminfo/base", "./terminfo/extended"}, nil)
+	if err != nil {
+		fmt.Println(err)
+		return 3
+	}
+	db := LoadTermDB(e, true)
+	te := db.ByName[args[0]]
+	c := db.Ev.C
+	col, row := symInt(c, "col"), symInt(c, "row")
+	real, err := evalMethod(db, te, "TGoto", []Value{col, row})
+	fmt.Println(err)
+	for _, r := range real {
+		fmt.Println(showValue(r.Out))
+	}
+	return 0
+}
+
+func cmdEvalColor(args []string) int {
+	e, _ := LoadEngine([]string{".", "./terminfo", "./views", "./terminfo/base", "./terminfo/extended"}, nil)
+	db := LoadTermDB(e, true)
+	te := db.ByName[args[0]]
+	c := db.Ev.C
+	fi, bi := symInt(c, "fi"), symInt(c, "bi")
+	real, err := evalMethod(db, te, "TColor", []Value{fi, bi})
+	fmt.Println(err, len(real))
+	for _, r := range real {
+		fmt.Println(showValue(r.Out), "  PC tail:", r.PC[len(r.PC)-3:])
+	}
+	for _, rp := range RefTParm(c, db.St, db.str(te, "SetFg"), []refVal{{I: fi}}) {
+		fmt.Println("ref:", showValue(rp.Out), rp.Cond, rp.Undef)
+	}
+	return 0
+}
